@@ -327,7 +327,9 @@ impl BDF {
                 current_h *= factor;
                 h_try = current_h;
                 h_signed = direction * h_try;
-                x_new = x + h_signed;
+                // land on xend itself: x + (xend - x) can miss it by a rounding error, which
+                // would leave a spurious final step of that size
+                x_new = xend;
                 n_equal_steps = 0;
                 lu_is_current = false;  // Step size changed
             }
